@@ -7,10 +7,12 @@ import PvProofs.Lemmas.MdStoreInv
 namespace PvProofs.MdLemmas
 open PvModel.MdStore
 
+variable {B : Addr → Addr}
+
 /-! ### scope deletion -/
 
-theorem setScopeValueOwner_empty_inv {st : State} (h : Inv st) (id : UUID) :
-    Inv (setScopeValueOwner st id "") ∧ (∀ p ∈ (setScopeValueOwner st id "").valueOwners, p.1 ≠ id) := by
+theorem setScopeValueOwner_empty_inv {st : State} (h : Inv B st) (id : UUID) :
+    Inv B (setScopeValueOwner B st id "") ∧ (∀ p ∈ (setScopeValueOwner B st id "").valueOwners, p.1 ≠ id) := by
   simp only [setScopeValueOwner, if_true]
   cases hg : getScopeValueOwner st id with
   | none =>
@@ -27,32 +29,32 @@ theorem setScopeValueOwner_empty_inv {st : State} (h : Inv st) (id : UUID) :
       voScope := fun p hp => h.voScope p (mem_kdel.mp hp).1 }
 
 theorem setScopeValueOwner_empty_same (st : State) (id : UUID) :
-    SameButSessRec st { setScopeValueOwner st id "" with valueOwners := st.valueOwners } ∧
-    (setScopeValueOwner st id "").sessions = st.sessions ∧
-    (setScopeValueOwner st id "").records = st.records := by
+    SameButSessRec st { setScopeValueOwner B st id "" with valueOwners := st.valueOwners } ∧
+    (setScopeValueOwner B st id "").sessions = st.sessions ∧
+    (setScopeValueOwner B st id "").records = st.records := by
   simp only [setScopeValueOwner, if_true]
   cases getScopeValueOwner st id <;>
     exact ⟨⟨rfl, rfl, rfl, rfl, rfl, rfl, rfl, rfl, rfl, rfl, rfl, fun _ h => h⟩, rfl, rfl⟩
 
 /-- The state after the value-owner burn and the record walk of `RemoveScope st id`. -/
-def afterWalk (st : State) (id : UUID) : State :=
-  let st1 := setScopeValueOwner st id ""
+def afterWalk (B : Addr → Addr) (st : State) (id : UUID) : State :=
+  let st1 := setScopeValueOwner B st id ""
   removeRecords st1 (st1.records.filter (fun r => r.id.scope = id))
 
 theorem removeScopePreFix_eq {st : State} {id : UUID} {sc : Scope} (h : kget (·.id) st.scopes id = some sc) :
-    removeScopePreFix st id =
-      { indexScope (afterWalk st id) none (some sc) with scopes := kdel (·.id) id (afterWalk st id).scopes } := by
+    removeScopePreFix B st id =
+      { indexScope B (afterWalk B st id) none (some sc) with scopes := kdel (·.id) id (afterWalk B st id).scopes } := by
   simp only [removeScopePreFix, h]
   rfl
 
 theorem removeScope_eq {st : State} {id : UUID} {sc : Scope} (h : kget (·.id) st.scopes id = some sc) :
-    removeScope st id =
-      { removeScopePreFix st id with sessions := (removeScopePreFix st id).sessions.filter (fun x => x.id.scope ≠ id) } := by
+    removeScope B st id =
+      { removeScopePreFix B st id with sessions := (removeScopePreFix B st id).sessions.filter (fun x => x.id.scope ≠ id) } := by
   simp only [removeScope, removeScopePreFix, h]
   rfl
 
-structure AfterWalk (st : State) (id : UUID) (w : State) : Prop where
-  inv : Inv w
+structure AfterWalk (B : Addr → Addr) (st : State) (id : UUID) (w : State) : Prop where
+  inv : Inv B w
   scopes : w.scopes = st.scopes
   scopeSpecs : w.scopeSpecs = st.scopeSpecs
   contractSpecs : w.contractSpecs = st.contractSpecs
@@ -70,14 +72,14 @@ structure AfterWalk (st : State) (id : UUID) (w : State) : Prop where
   recNoId : ∀ r ∈ w.records, r.id.scope ≠ id
   recKept : ∀ r ∈ st.records, r.id.scope ≠ id → r ∈ w.records
 
-theorem afterWalk_spec {st : State} (h : Inv st) (id : UUID) : AfterWalk st id (afterWalk st id) := by
+theorem afterWalk_spec {st : State} (h : Inv B st) (id : UUID) : AfterWalk B st id (afterWalk B st id) := by
   obtain ⟨h1, hvo⟩ := setScopeValueOwner_empty_inv h id
   obtain ⟨hs1, hsess1, hrec1⟩ := setScopeValueOwner_empty_same st id
-  have hw := removeRecords_same (setScopeValueOwner st id "")
-    ((setScopeValueOwner st id "").records.filter (fun r => r.id.scope = id))
-  have hrr := removeRecords_records (setScopeValueOwner st id "")
-    ((setScopeValueOwner st id "").records.filter (fun r => r.id.scope = id))
-  have hsub : ∀ p ∈ (setScopeValueOwner st id "").valueOwners, p ∈ st.valueOwners := by
+  have hw := removeRecords_same (setScopeValueOwner B st id "")
+    ((setScopeValueOwner B st id "").records.filter (fun r => r.id.scope = id))
+  have hrr := removeRecords_records (setScopeValueOwner B st id "")
+    ((setScopeValueOwner B st id "").records.filter (fun r => r.id.scope = id))
+  have hsub : ∀ p ∈ (setScopeValueOwner B st id "").valueOwners, p ∈ st.valueOwners := by
     simp only [setScopeValueOwner, if_true]
     cases getScopeValueOwner st id with
     | none => exact fun _ hp => hp
@@ -96,12 +98,12 @@ theorem afterWalk_spec {st : State} (h : Inv st) (id : UUID) : AfterWalk st id (
     navs := hw.navs.trans hs1.navs
     voNoId := by
       intro p hp
-      have : p ∈ (setScopeValueOwner st id "").valueOwners := by
+      have : p ∈ (setScopeValueOwner B st id "").valueOwners := by
         have := hw.valueOwners; unfold afterWalk at hp; rw [this] at hp; exact hp
       exact hvo p this
     voSub := by
       intro p hp
-      have : p ∈ (setScopeValueOwner st id "").valueOwners := by
+      have : p ∈ (setScopeValueOwner B st id "").valueOwners := by
         have := hw.valueOwners; unfold afterWalk at hp; rw [this] at hp; exact hp
       exact hsub p this
     sessSub := by
@@ -185,15 +187,15 @@ theorem removeRecords_done : ∀ (recs : List Record) (st : State),
     · exact ih _ hn1 hnr.2 hmem1 q hqt
 
 /-- after the record walk of `RemoveScope st id`, a session that held a record of that scope is gone -/
-theorem afterWalk_session_gone {st : State} (h : Inv st) (id : UUID) (r : Record) (hr : r ∈ st.records)
-    (hrs : r.id.scope = id) (x : Session) (hx : x ∈ (afterWalk st id).sessions) (e : x.id = r.session) :
+theorem afterWalk_session_gone {st : State} (h : Inv B st) (id : UUID) (r : Record) (hr : r ∈ st.records)
+    (hrs : r.id.scope = id) (x : Session) (hx : x ∈ (afterWalk B st id).sessions) (e : x.id = r.session) :
     False := by
   have w := afterWalk_spec h id
   obtain ⟨h1, _⟩ := setScopeValueOwner_empty_inv h id
   obtain ⟨_, _, hrec1⟩ := setScopeValueOwner_empty_same st id
-  have hmemr : r ∈ (setScopeValueOwner st id "").records.filter (fun r => r.id.scope = id) :=
+  have hmemr : r ∈ (setScopeValueOwner B st id "").records.filter (fun r => r.id.scope = id) :=
     List.mem_filter.mpr ⟨by rw [hrec1]; exact hr, by simpa using hrs⟩
-  have hd := removeRecords_done _ (setScopeValueOwner st id "") h1.keys.2.2.1
+  have hd := removeRecords_done _ (setScopeValueOwner B st id "") h1.keys.2.2.1
     (nodup_filter (key := fun r : Record => r.id) _ h1.keys.2.2.1)
     (fun q hq => (List.mem_filter.mp hq).1) r hmemr
   rcases hd with ⟨q, hq, hqs⟩ | hgone
@@ -204,30 +206,30 @@ theorem afterWalk_session_gone {st : State} (h : Inv st) (id : UUID) (r : Record
 
 /-- HISTORICAL `RemoveScope` (before ab8bb51a7; also the first part of the current one):
 `DeleteScope` preserves `Inv`, and nothing about the scope is left except, possibly, sessions. -/
-theorem deleteScopePreFix_spec {st : State} (h : Inv st) (id : UUID) (sc : Scope)
+theorem deleteScopePreFix_spec {st : State} (h : Inv B st) (id : UUID) (sc : Scope)
     (hsc : kget (·.id) st.scopes id = some sc) :
-    Inv (removeNetAssetValues (removeScopePreFix st id) id) ∧
-    ScopeGoneExceptSessions (removeNetAssetValues (removeScopePreFix st id) id) id ∧
-    (removeNetAssetValues (removeScopePreFix st id) id).sessions = (afterWalk st id).sessions ∧
-    (removeNetAssetValues (removeScopePreFix st id) id).records = (afterWalk st id).records ∧
-    (removeNetAssetValues (removeScopePreFix st id) id).scopes = kdel (·.id) id st.scopes := by
+    Inv B (removeNetAssetValues (removeScopePreFix B st id) id) ∧
+    ScopeGoneExceptSessions (removeNetAssetValues (removeScopePreFix B st id) id) id ∧
+    (removeNetAssetValues (removeScopePreFix B st id) id).sessions = (afterWalk B st id).sessions ∧
+    (removeNetAssetValues (removeScopePreFix B st id) id).records = (afterWalk B st id).records ∧
+    (removeNetAssetValues (removeScopePreFix B st id) id).scopes = kdel (·.id) id st.scopes := by
   have w := afterWalk_spec h id
   rw [removeScopePreFix_eq hsc]
-  have hscw : kget (·.id) (afterWalk st id).scopes id = some sc := by rw [w.scopes]; exact hsc
-  have hA : AddrScopeExact (removeNetAssetValues
-      { indexScope (afterWalk st id) none (some sc) with scopes := kdel (·.id) id (afterWalk st id).scopes } id) := by
-    have := idxExact_kdel (key := fun s : Scope => s.id) (vals := Scope.addrs) w.inv.keys.1 w.inv.addrScope id sc hscw
-      (scopeIndexAddrs sc) (by intro b; simp [scopeIndexAddrs, Scope.addrs, or_comm])
+  have hscw : kget (·.id) (afterWalk B st id).scopes id = some sc := by rw [w.scopes]; exact hsc
+  have hA : AddrScopeExact B (removeNetAssetValues
+      { indexScope B (afterWalk B st id) none (some sc) with scopes := kdel (·.id) id (afterWalk B st id).scopes } id) := by
+    have := idxExact_kdel (key := fun s : Scope => s.id) (vals := Scope.accts B) w.inv.keys.1 w.inv.addrScope id sc hscw
+      (scopeIndexAddrs B sc) (mem_scopeIndexAddrs sc)
     have e : sc.id = id := (kget_some hsc).2
     simpa [AddrScopeExact, removeNetAssetValues, indexScope, optAddrs, e] using this
   have hS : SpecScopeExact (removeNetAssetValues
-      { indexScope (afterWalk st id) none (some sc) with scopes := kdel (·.id) id (afterWalk st id).scopes } id) := by
+      { indexScope B (afterWalk B st id) none (some sc) with scopes := kdel (·.id) id (afterWalk B st id).scopes } id) := by
     have := idxExact_kdel (key := fun s : Scope => s.id) (vals := fun s : Scope => [s.spec]) w.inv.keys.1
       w.inv.specScope id sc hscw [sc.spec] (by intro b; simp)
     have e : sc.id = id := (kget_some hsc).2
     simpa [SpecScopeExact, removeNetAssetValues, indexScope, optSpec, e] using this
   have hscope : ∀ k, k ≠ id → (∃ s ∈ st.scopes, s.id = k) →
-      ∃ s ∈ kdel (·.id) id (afterWalk st id).scopes, s.id = k := by
+      ∃ s ∈ kdel (·.id) id (afterWalk B st id).scopes, s.id = k := by
     intro k hk hex
     rw [w.scopes]
     exact exists_key_kdel.mpr ⟨hk, hex⟩
@@ -251,7 +253,7 @@ theorem deleteScopePreFix_spec {st : State} (h : Inv st) (id : UUID) (sc : Scope
         exact hscope _ (w.voNoId p hp) (h.voScope p (w.voSub p hp))
       navScope := by
         intro p hp
-        have hp' : p ∈ (afterWalk st id).navs ∧ p.1 ≠ id := by
+        have hp' : p ∈ (afterWalk B st id).navs ∧ p.1 ≠ id := by
           simpa [removeNetAssetValues, indexScope] using hp
         rw [w.navs] at hp'
         exact hscope _ hp'.2 (h.navScope p hp'.1) }
@@ -259,11 +261,11 @@ theorem deleteScopePreFix_spec {st : State} (h : Inv st) (id : UUID) (sc : Scope
     · intro s hs
       exact (mem_kdel.mp hs).2
     · exact w.recNoId
-    · exact idx_no_entry_after_del (key := fun s : Scope => s.id) (vals := Scope.addrs) hA
+    · exact idx_no_entry_after_del (key := fun s : Scope => s.id) (vals := Scope.accts B) hA
     · exact idx_no_entry_after_del (key := fun s : Scope => s.id) (vals := fun s : Scope => [s.spec]) hS
     · exact w.voNoId
     · intro p hp
-      have hp' : p ∈ (afterWalk st id).navs ∧ p.1 ≠ id := by
+      have hp' : p ∈ (afterWalk B st id).navs ∧ p.1 ≠ id := by
         simpa [removeNetAssetValues, indexScope] using hp
       exact hp'.2
 
@@ -284,8 +286,8 @@ theorem optOwnersC_kget {st : State} {id : UUID} (b : Addr) :
       ∃ o, kget (·.id) st.contractSpecs id = some o ∧ b ∈ o.owners := by
   cases kget (·.id) st.contractSpecs id <;> simp [optOwnersC]
 
-theorem setScopeSpecification_inv {st : State} (h : Inv st) (sp : ScopeSpec) :
-    Inv (setScopeSpecification st sp) where
+theorem setScopeSpecification_inv {st : State} (h : Inv B st) (sp : ScopeSpec) :
+    Inv B (setScopeSpecification B st sp) where
   keys := by
     obtain ⟨h1, h2, h3, h4, h5, h6, h7⟩ := h.keys
     exact ⟨h1, h2, h3, nodup_kput sp h4, h5, h6, h7⟩
@@ -295,7 +297,7 @@ theorem setScopeSpecification_inv {st : State} (h : Inv st) (sp : ScopeSpec) :
   addrScope := h.addrScope
   specScope := h.specScope
   ownerScopeSpec := by
-    have := idxExact_kput (key := fun s : ScopeSpec => s.id) (vals := fun s : ScopeSpec => s.owners)
+    have := idxSound_kputVia (key := fun s : ScopeSpec => s.id) (tv := fun s : ScopeSpec => s.owners) (f := B)
       h.keys.2.2.2.1 h.ownerScopeSpec sp sp.owners (optOwnersP (kget (·.id) st.scopeSpecs sp.id))
       (fun _ => Iff.rfl) (fun b => optOwnersP_kget b)
     exact this
@@ -308,8 +310,8 @@ theorem setScopeSpecification_inv {st : State} (h : Inv st) (sp : ScopeSpec) :
   voScope := h.voScope
   navScope := h.navScope
 
-theorem removeScopeSpecification_inv {st st' : State} (h : Inv st) (id : UUID)
-    (hr : removeScopeSpecification st id = .ok st') : Inv st' := by
+theorem removeScopeSpecification_inv {st st' : State} (h : Inv B st) (id : UUID)
+    (hr : removeScopeSpecification B st id = .ok st') : Inv B st' := by
   unfold removeScopeSpecification at hr
   split at hr
   · cases hr
@@ -328,9 +330,9 @@ theorem removeScopeSpecification_inv {st st' : State} (h : Inv st) (id : UUID)
         addrScope := h.addrScope
         specScope := h.specScope
         ownerScopeSpec := by
-          have := idxExact_kdel (key := fun s : ScopeSpec => s.id) (vals := fun s : ScopeSpec => s.owners)
+          have := idxSound_kdelVia (key := fun s : ScopeSpec => s.id) (tv := fun s : ScopeSpec => s.owners) (f := B)
             h.keys.2.2.2.1 h.ownerScopeSpec id sp hsp sp.owners (fun _ => Iff.rfl)
-          simpa [OwnerScopeSpecExact, indexScopeSpecification, optOwnersP, e] using this
+          simpa [OwnerScopeSpecSound, indexScopeSpecification, optOwnersP, e] using this
         cspecScopeSpec := by
           have := idxExact_kdel (key := fun s : ScopeSpec => s.id) (vals := fun s : ScopeSpec => s.cspecs)
             h.keys.2.2.2.1 h.cspecScopeSpec id sp hsp sp.cspecs (fun _ => Iff.rfl)
@@ -339,8 +341,8 @@ theorem removeScopeSpecification_inv {st st' : State} (h : Inv st) (id : UUID)
         voScope := h.voScope
         navScope := h.navScope }
 
-theorem setContractSpecification_inv {st : State} (h : Inv st) (sp : ContractSpec) :
-    Inv (setContractSpecification st sp) where
+theorem setContractSpecification_inv {st : State} (h : Inv B st) (sp : ContractSpec) :
+    Inv B (setContractSpecification B st sp) where
   keys := by
     obtain ⟨h1, h2, h3, h4, h5, h6, h7⟩ := h.keys
     exact ⟨h1, h2, h3, h4, nodup_kput sp h5, h6, h7⟩
@@ -352,15 +354,15 @@ theorem setContractSpecification_inv {st : State} (h : Inv st) (sp : ContractSpe
   ownerScopeSpec := h.ownerScopeSpec
   cspecScopeSpec := h.cspecScopeSpec
   ownerCSpec := by
-    have := idxExact_kput (key := fun s : ContractSpec => s.id) (vals := fun s : ContractSpec => s.owners)
+    have := idxSound_kputVia (key := fun s : ContractSpec => s.id) (tv := fun s : ContractSpec => s.owners) (f := B)
       h.keys.2.2.2.2.1 h.ownerCSpec sp sp.owners (optOwnersC (kget (·.id) st.contractSpecs sp.id))
       (fun _ => Iff.rfl) (fun b => optOwnersC_kget b)
     exact this
   voScope := h.voScope
   navScope := h.navScope
 
-theorem removeContractSpecification_inv {st st' : State} (h : Inv st) (id : UUID)
-    (hr : removeContractSpecification st id = .ok st') : Inv st' := by
+theorem removeContractSpecification_inv {st st' : State} (h : Inv B st) (id : UUID)
+    (hr : removeContractSpecification B st id = .ok st') : Inv B st' := by
   unfold removeContractSpecification at hr
   split at hr
   · cases hr
@@ -381,15 +383,15 @@ theorem removeContractSpecification_inv {st st' : State} (h : Inv st) (id : UUID
         ownerScopeSpec := h.ownerScopeSpec
         cspecScopeSpec := h.cspecScopeSpec
         ownerCSpec := by
-          have := idxExact_kdel (key := fun s : ContractSpec => s.id) (vals := fun s : ContractSpec => s.owners)
+          have := idxSound_kdelVia (key := fun s : ContractSpec => s.id) (tv := fun s : ContractSpec => s.owners) (f := B)
             h.keys.2.2.2.2.1 h.ownerCSpec id sp hsp sp.owners (fun _ => Iff.rfl)
-          simpa [OwnerCSpecExact, indexContractSpecification, optOwnersC, e] using this
+          simpa [OwnerCSpecSound, indexContractSpecification, optOwnersC, e] using this
         voScope := h.voScope
         navScope := h.navScope }
 
 /-- any change of the record-specification list that keeps keys unique -/
-theorem recordSpecs_inv {st : State} (h : Inv st) (l : List RecordSpec) (hl : (l.map (·.id)).Nodup) :
-    Inv { st with recordSpecs := l } :=
+theorem recordSpecs_inv {st : State} (h : Inv B st) (l : List RecordSpec) (hl : (l.map (·.id)).Nodup) :
+    Inv B { st with recordSpecs := l } :=
   { h with
     keys := by
       obtain ⟨h1, h2, h3, h4, h5, _, h7⟩ := h.keys
@@ -397,8 +399,8 @@ theorem recordSpecs_inv {st : State} (h : Inv st) (l : List RecordSpec) (hl : (l
 
 /-! ### value owners and net asset values -/
 
-theorem setScopeValueOwners_inv {st : State} (h : Inv st) (ids : List UUID) (a : Addr)
-    (hids : ∀ id ∈ ids, ∃ sc ∈ st.scopes, sc.id = id) : Inv (setScopeValueOwners st ids a) := by
+theorem setScopeValueOwners_inv {st : State} (h : Inv B st) (ids : List UUID) (a : Addr)
+    (hids : ∀ id ∈ ids, ∃ sc ∈ st.scopes, sc.id = id) : Inv B (setScopeValueOwners st ids a) := by
   unfold setScopeValueOwners
   induction ids generalizing st with
   | nil => exact h
@@ -428,8 +430,8 @@ theorem setScopeValueOwners_frame (st : State) (ids : List UUID) (a : Addr) :
     obtain ⟨h1, h2⟩ := ih { st with valueOwners := kput (·.1) (id, a) st.valueOwners }
     exact ⟨h1, h2⟩
 
-theorem setNetAssetValue_inv {st : State} (h : Inv st) (id : UUID) (d : String)
-    (hid : ∃ sc ∈ st.scopes, sc.id = id) : Inv (setNetAssetValue st id d) :=
+theorem setNetAssetValue_inv {st : State} (h : Inv B st) (id : UUID) (d : String)
+    (hid : ∃ sc ∈ st.scopes, sc.id = id) : Inv B (setNetAssetValue st id d) :=
   { h with
     navScope := by
       intro p hp
